@@ -262,7 +262,7 @@ pub fn run(ctx: &Ctx) -> (Acc, String, bool) {
         ]
     };
     let fixed_total = (fixed.len() * ins.len()) as u64;
-    let loops: u64 = 9 * 3;
+    let loops: u64 = 9 * 8;
     let random_total: u64 = ctx.pick(30_000, 1_500_000);
     let seed = ctx.seed;
     let cfg = GenCfg::default();
@@ -283,7 +283,7 @@ pub fn run(ctx: &Ctx) -> (Acc, String, bool) {
             }
         } else if i < ex_total + loops {
             let j = i - ex_total;
-            let e = loop_program((j / 3) as i32, (j % 3) as usize);
+            let e = loop_program((j / 8) as i32, (j % 8) as usize);
             check_program(&e, &V::Unit, &resolves, 20_000, acc);
             acc.nontrivial += 1;
             acc.count("reapply_loop_programs");
@@ -301,7 +301,7 @@ pub fn run(ctx: &Ctx) -> (Acc, String, bool) {
         }
     });
     let rule = format!(
-        "exhaustive: every core-language AST with <= {} nodes over 12 atoms (numbers, text, symbol, (), $?, $!, $, identifiers x y), 25 binary and 10 unary operators, space/comma lists, nested expressions, conditionals (with else from 4 nodes), both separators and side-effect blocks = {} programs x {} input values; 27 bounded reapply loops (0..8 iterations x 3 templates); {} random programs (depth <= {}) x random input. Each is printed with minimal parentheses (printer self-checked against the reference parser), run on both stores under a scripted host, and its value compared strictly with the reference evaluator's.",
+        "exhaustive: every core-language AST with <= {} nodes over 12 atoms (numbers, text, symbol, (), $?, $!, $, identifiers x y), 25 binary and 10 unary operators, space/comma lists, nested expressions, conditionals (with else from 4 nodes), both separators and side-effect blocks = {} programs x {} input values; 72 bounded reapply loops (0..8 iterations x 8 templates: restart from a branch, through brackets, through a conditional in brackets, from a logical operand, from the else position, from a nested expression); {} random programs (depth <= {}) x random input. Each is printed with minimal parentheses (printer self-checked against the reference parser), run on both stores under a scripted host, and its value compared strictly with the reference evaluator's.",
         k,
         n_small,
         ex_inputs.len(),
